@@ -47,7 +47,8 @@ type c07Obs struct {
 	Dispatches int64  `json:"dispatches"`
 	Rolls      int64  `json:"rolls"`
 	Monotone   bool   `json:"monotone"`
-	MaxExcess  int64  `json:"maxExcess"` // max over dispatches of work - 2*ops
+	MaxExcess  int64  `json:"maxExcess"`  // max over dispatches of work - 2*ops
+	MaxExcess1 int64  `json:"maxExcess1"` // max over dispatches of work - ops (exact accounting: every instruction and every die is charged)
 	Millis     int64  `json:"millis"`
 	ProgLen    int    `json:"progLen"`
 }
@@ -217,6 +218,9 @@ func c07RunOne(c c07Case) c07Obs {
 		}
 		lastOps = ops
 		o.Ops = ops
+		if ex := o.Dispatches + o.Rolls - ops; ex > o.MaxExcess1 {
+			o.MaxExcess1 = ex
+		}
 		if ex := o.Dispatches + o.Rolls - 2*ops; ex > o.MaxExcess {
 			o.MaxExcess = ex
 		}
@@ -363,6 +367,9 @@ func c07InProc(c c07Case) c07Obs {
 		}
 		lastOps = ops
 		o.Ops = ops
+		if ex := o.Dispatches + o.Rolls - ops; ex > o.MaxExcess1 {
+			o.MaxExcess1 = ex
+		}
 		if ex := o.Dispatches + o.Rolls - 2*ops; ex > o.MaxExcess {
 			o.MaxExcess = ex
 		}
